@@ -59,7 +59,7 @@ theorem C07t_measure_decreases (n : Nat) (f : Bool) (log : List Ev) (s s' : St) 
 
 /-- **Bounded runs.**  Any accepted log of a finite program (`n` threads, `prog t` the operations
     of thread `t`) has at most `bound n prog` events — whatever the interleaving, including all
-    deadline expiries and spurious wake-ups the model admits. -/
+    deadline expiries and spurious wake-ups the model allows. -/
 theorem C07t_bounded (n : Nat) (f : Bool) (prog : Nat → List Op) (log : List Ev) (p : PSt)
     (h : runLog pstep (pinit n f prog) log = some p) : log.length ≤ bound n prog := by
   have := (runLog_phi log _ p (good_init n f) h).1
@@ -427,6 +427,11 @@ def predRun2 : List Ev :=
    .cvAll 1 0, .slRel 1, .ret 1 0, .inv 1 .unlock, .ulRel 1, .done 1,
    .inv 0 .lock, .ulAcq 0, .inv 0 (.wait false true), .pred 0 true, .ret 0 1,
    .inv 0 .unlock, .ulRel 0, .done 0]
+
+example : ∀ t, wf false (predProg t) = true := by
+  intro t; simp only [predProg]; split
+  · rfl
+  · split <;> rfl
 
 /-- both orders are accepted, maximal, end with every thread finished and satisfy the hypotheses
     of `C07t_pred_covered` (flag true, not dirty) -/
